@@ -23,7 +23,10 @@ fn cap_word(c: &Capability) -> &'static str {
         Capability::AG_UNCERTAIN2 => "uncertain2",
         Capability::AG_UNCERTAIN3 => "airborne?",
         #[allow(unreachable_patterns)]
-        _ => "<variant unknown to the reference>",
+        _ => {
+            crate::common::note_unknown_variant();
+            "<variant unknown to the reference>"
+        }
     }
 }
 
@@ -51,7 +54,10 @@ fn sign_word(s: &Sign) -> &'static str {
         Sign::Positive => "",
         Sign::Negative => "-",
         #[allow(unreachable_patterns)]
-        _ => "<variant unknown to the reference>",
+        _ => {
+            crate::common::note_unknown_variant();
+            "<variant unknown to the reference>"
+        }
     }
 }
 
@@ -66,7 +72,10 @@ fn emergency_word(e: &EmergencyState) -> &'static str {
         EmergencyState::DownedAircraft => "downed aircraft",
         EmergencyState::Reserved2 => "reserved2",
         #[allow(unreachable_patterns)]
-        _ => "<variant unknown to the reference>",
+        _ => {
+            crate::common::note_unknown_variant();
+            "<variant unknown to the reference>"
+        }
     }
 }
 
@@ -76,7 +85,10 @@ fn version_digit(v: &ADSBVersion) -> u8 {
         ADSBVersion::DOC9871AppendixB => 1,
         ADSBVersion::DOC9871AppendixC => 2,
         #[allow(unreachable_patterns)]
-        _ => 99,
+        _ => {
+            crate::common::note_unknown_variant();
+            99
+        }
     }
 }
 
@@ -181,7 +193,10 @@ fn me_text(m: &ME, addr: &ICAO, address_type: &str, capability: &str, transponde
                         VerticalRateSource::BarometricPressureAltitude => "barometric",
                         VerticalRateSource::GeometricAltitude => "GNSS",
                         #[allow(unreachable_patterns)]
-                        _ => "<variant unknown to the reference>",
+                        _ => {
+                            crate::common::note_unknown_variant();
+                            "<variant unknown to the reference>"
+                        }
                     };
                     writeln!(f, "  Vertical rate: {vrate} ft/min {src}").unwrap();
                 } else {
@@ -203,7 +218,10 @@ fn me_text(m: &ME, addr: &ICAO, address_type: &str, capability: &str, transponde
                 f += &addr_line;
             }
             #[allow(unreachable_patterns)]
-            _ => f += "<velocity variant unknown to the reference>\n",
+            _ => {
+                crate::common::note_unknown_variant();
+                f += "<velocity variant unknown to the reference>\n"
+            }
         },
         ME::AirbornePositionGNSSAltitude(alt) => {
             writeln!(f, " Extended Squitter{t}Airborne position (GNSS altitude)").unwrap();
@@ -320,7 +338,10 @@ fn me_text(m: &ME, addr: &ICAO, address_type: &str, capability: &str, transponde
             f += &addr_line;
         }
         #[allow(unreachable_patterns)]
-        _ => f += "<ME variant unknown to the reference>\n",
+        _ => {
+            crate::common::note_unknown_variant();
+            f += "<ME variant unknown to the reference>\n"
+        }
     }
     f
 }
@@ -332,7 +353,10 @@ fn bds_text(b: &BDS) -> String {
         BDS::DataLinkCapability(_) => "Comm-B format: BDS1,0 Datalink capabilities\n".to_string(),
         BDS::Unknown(_) => "Comm-B format: unknown format\n".to_string(),
         #[allow(unreachable_patterns)]
-        _ => "<BDS variant unknown to the reference>\n".to_string(),
+        _ => {
+            crate::common::note_unknown_variant();
+            "<BDS variant unknown to the reference>\n".to_string()
+        }
     }
 }
 
@@ -403,7 +427,10 @@ pub fn render(frame: &Frame, cf_type: Option<u64>) -> String {
             writeln!(f, "    ICAO Address:     {crc:x} (Mode S / ADS-B)").unwrap();
         }
         #[allow(unreachable_patterns)]
-        _ => f += "<DF variant unknown to the reference>\n",
+        _ => {
+            crate::common::note_unknown_variant();
+            f += "<DF variant unknown to the reference>\n"
+        }
     }
     f
 }
